@@ -527,7 +527,450 @@ def c11_zip_sched(job, drv):
         w.close()
 
 
+# ----------------------------------------------------------------------------
+# a reader racing a writer, the reader in a process of its own
+# ----------------------------------------------------------------------------
+def _race_child(job, drv, w, h, g, refs, plan, cachepath, wfd):
+    """Runs in a forked copy of the driver; never returns.  Three real requests for the same directory:
+    W finds no cache file, generates the listing and is held just before the first thing it does to the
+    directory (found by watching the directory while W is advanced gate by gate); a complete request W0 writes
+    the cache file; the reader R (fresh complete cache) is advanced `j` gates into its request; W performs its
+    next step(s) (the unchanged code: open(cachefile, 'wb'), i.e. the file is cut to 0 bytes); R runs on; W runs on.
+    Gates of R: every line and every call of / return from a C function (pickle.load, mmap.mmap, ...) in
+    handlers/dir.py, every vfs.stat/open of a cache file, every read/peek/readinto/readline on the opened
+    cache file (so the writer's step can land in the MIDDLE of the load).  All installed from outside."""
+    import io
+    import json
+    import sys
+    import threading
+    import pygopherd.handlers.base as hbase
+    out = {"stage": "start"}
+    try:
+        import signal as _signal
+        drv._alarm_ok = False
+        _signal.setitimer(_signal.ITIMER_REAL, 0)
+        gates = g.Gates()
+        mark = job.get("cachefile", ".cache.pygopherd.dir")
+        fine = {}                      # tid -> line / C-call gates on?
+        patience = float(job.get("patience", 40))
+        orig_stat, orig_open = hbase.VFS_Real.stat, hbase.VFS_Real.open
+
+        def bufsize(raw):
+            try:
+                bs = os.fstat(raw.fileno()).st_blksize
+            except (OSError, AttributeError):
+                bs = 0
+            if sys.version_info >= (3, 13):
+                return max(min(bs, 8192 * 1024), io.DEFAULT_BUFFER_SIZE)
+            return bs if bs > 1 else io.DEFAULT_BUFFER_SIZE
+
+        class GatedReader(io.BufferedReader):
+            def _g(self, what):
+                try:
+                    pos = self.tell()
+                except (OSError, ValueError):
+                    pos = -1
+                gates.gate("%s@%d" % (what, pos))
+
+            def read(self, *a):
+                self._g("read")
+                return super().read(*a)
+
+            def read1(self, *a):
+                self._g("read1")
+                return super().read1(*a)
+
+            def readinto(self, b):
+                self._g("readinto")
+                return super().readinto(b)
+
+            def readinto1(self, b):
+                self._g("readinto1")
+                return super().readinto1(b)
+
+            def readline(self, *a):
+                self._g("readline")
+                return super().readline(*a)
+
+            def peek(self, *a):
+                self._g("peek")
+                return super().peek(*a)
+
+        class GatedWriter(io.BufferedWriter):
+            def write(self, b):
+                gates.gate("write")
+                return super().write(b)
+
+        def stat(self, selector):
+            if mark in selector.rsplit("/", 1)[-1]:
+                gates.gate("stat")
+            return orig_stat(self, selector)
+
+        def open_(self, selector, mode, errors=None):
+            mine = mark in selector.rsplit("/", 1)[-1]
+            if mine:
+                gates.gate("open-" + mode)
+            f = orig_open(self, selector, mode, errors=errors)
+            if mine and getattr(_tls_tid(), "tid", None) is not None:
+                if type(f) is io.BufferedReader:
+                    raw = f.detach()
+                    return GatedReader(raw, bufsize(raw))
+                if type(f) is io.BufferedWriter:
+                    raw = f.detach()
+                    return GatedWriter(raw, bufsize(raw))
+            return f
+
+        def _tls_tid():
+            return g._tls
+
+        suffixes = tuple(job.get("trace_files", ["/pygopherd/handlers/dir.py"]))
+
+        def local(frame, event, arg):
+            if event == "line" and fine.get(getattr(g._tls, "tid", None)):
+                gates.gate("line %d" % frame.f_lineno)
+            return local
+
+        def tracer(frame, event, arg):
+            if event == "call" and frame.f_code.co_filename.endswith(suffixes):
+                return local
+            return None
+
+        def profiler(frame, event, arg):
+            if event in ("c_call", "c_return", "c_exception") and fine.get(getattr(g._tls, "tid", None)) \
+                    and frame.f_code.co_filename.endswith(suffixes):
+                gates.gate("%s %s line %d" % (event, getattr(arg, "__qualname__", getattr(arg, "__name__", "?")), frame.f_lineno))
+
+        hbase.VFS_Real.stat, hbase.VFS_Real.open = stat, open_
+        protokeys = job["protokeys"]
+        names = {0: job["keys"][0], 1: job["keys"][1]}
+        results = {}
+
+        def worker(tid):
+            g._tls.tid = tid
+            try:
+                if fine.get(tid) is not None:
+                    sys.settrace(tracer)
+                    sys.setprofile(profiler)
+                rq = protokeys[names[tid]]
+                try:
+                    results[tid] = drv.serve_once(w.config, drv.s2b(rq["data"]), tls=rq["tls"])
+                finally:
+                    sys.settrace(None)
+                    sys.setprofile(None)
+            except BaseException as e:   # noqa
+                results[tid] = {"out": "", "exc": "harness:" + repr(e), "log": []}
+            finally:
+                gates.finish(tid)
+
+        def grant(tid):
+            with gates.cv:
+                if tid in gates.done:
+                    return False
+                gates.waiting.pop(tid, None)
+                gates.granted.add(tid)
+                gates.cv.notify_all()
+            gates.settle(tid, timeout=patience)
+            return True
+
+        def passed(tid):
+            with gates.cv:
+                return sum(1 for t_, _ in gates.trace if t_ == tid)
+
+        def snapshot():
+            d = os.path.dirname(cachepath)
+            snap = []
+            for fn in sorted(os.listdir(d)):
+                if mark in fn:
+                    st = os.lstat(os.path.join(d, fn))
+                    snap.append((fn, st.st_size, st.st_mtime_ns, st.st_ino))
+            return snap
+
+        def plain(key):
+            rq = protokeys[key]
+            r = drv.serve_once(w.config, drv.s2b(rq["data"]), tls=rq["tls"])
+            return r
+
+        def verdict(r, key):
+            o = h.mask(drv.s2b(r["out"]))
+            if r["exc"] or (not o and o != refs[key]):
+                return "empty"
+            return "ok" if o == refs[key] else "wrong"
+
+        mode, j, m = plan["mode"], plan.get("j"), plan.get("m", 0)
+        hold = plan.get("writer_hold")          # gates W passes before the step that changes the directory
+        # ---- W: up to the step that first changes the directory ----
+        tW = threading.Thread(target=worker, args=(0,), daemon=True)
+        tW.start()
+        gates.settle(0, timeout=patience)
+        out["stage"] = "writer-started"
+        if hold is None:
+            # probe: advance W gate by gate, watching the directory
+            before = snapshot()
+            n_ = 0
+            hold = None
+            while 0 not in gates.done and n_ < 400:
+                grant(0)
+                n_ += 1
+                if snapshot() != before:
+                    hold = n_ - 1
+                    break
+            out["writer_hold"] = hold
+            out["writer_step_label"] = [lab for t_, lab in gates.trace if t_ == 0][-1:] if hold is not None else None
+            wrote_at_probe = True
+        else:
+            for _ in range(hold):
+                grant(0)
+            wrote_at_probe = False
+        out["stage"] = "writer-held"
+        if mode == "probe":
+            # (the writer has already taken its step here: finish it, start over with a complete file)
+            for _ in range(400):
+                if not grant(0):
+                    break
+        # ---- W0: a complete request writes the complete, fresh cache file ----
+        r0 = plain(job["keys"][2])
+        out["w0"] = verdict(r0, job["keys"][2])
+        out["cache_size"] = os.path.getsize(cachepath) if os.path.exists(cachepath) else None
+        before_r = snapshot()
+        # ---- R ----
+        fine[1] = True
+        tR = threading.Thread(target=worker, args=(1,), daemon=True)
+        tR.start()
+        gates.settle(1, timeout=patience)
+        out["stage"] = "reader-started"
+        if mode == "probe":
+            n_ = 0
+            while grant(1) and n_ < 5000:
+                n_ += 1
+            out["reader_gates"] = passed(1)
+            out["reader_labels"] = [lab for t_, lab in gates.trace if t_ == 1]
+            out["reader_changed_the_directory"] = snapshot() != before_r
+        else:
+            for _ in range(j):
+                if not grant(1):
+                    break
+            out["reader_at"] = gates.waiting.get(1, "finished")
+            out["reader_gates_before"] = passed(1)
+            out["reader_last_steps"] = [lab for t_, lab in gates.trace if t_ == 1][-4:]
+            fine[1] = False
+            os.write(wfd, (json.dumps(dict(out, stage="about to take the writer's step")) + "\n").encode())
+            # the writer's step(s)
+            if mode == "full":
+                for _ in range(400):
+                    if not grant(0):
+                        break
+            else:
+                grant(0)
+                out["writer_at"] = gates.waiting.get(0, "finished")
+                out["size_after_writer_step"] = os.path.getsize(cachepath) if os.path.exists(cachepath) else None
+                for _ in range(m):
+                    if not grant(1):
+                        break
+                if mode == "mixed":
+                    for _ in range(400):
+                        if not grant(0):
+                            break
+            out["stage"] = "writer-stepped"
+            for _ in range(5000):
+                if not grant(1):
+                    break
+            out["stage"] = "reader-finished"
+            for _ in range(400):
+                if not grant(0):
+                    break
+        out["stage"] = "all-finished"
+        gates.release_all()
+        tR.join(patience)
+        tW.join(patience)
+        out["trace_tail"] = [[t_, lab] for t_, lab in gates.trace if not lab.startswith("line ")][-40:]
+        for tid, nm in ((1, "reader"), (0, "writer")):
+            r = results.get(tid) or {"out": "", "exc": "no result", "log": []}
+            out[nm] = {"verdict": verdict(r, names[tid]), "protocol": names[tid], "exception": r["exc"],
+                       "response_head_latin1": drv.b2s(h.mask(drv.s2b(r["out"]))[:160]),
+                       "log": [x for x in r["log"] if "EXCEPTION" in x][-2:]}
+        hbase.VFS_Real.stat, hbase.VFS_Real.open = orig_stat, orig_open
+        r3 = plain(job["keys"][3])
+        out["later"] = {"verdict": verdict(r3, job["keys"][3]), "protocol": job["keys"][3], "exception": r3["exc"],
+                        "response_head_latin1": drv.b2s(h.mask(drv.s2b(r3["out"]))[:160])}
+        out["stage"] = "done"
+    except g.Blocked as e:
+        out["blocked"] = str(e)
+    except BaseException as e:   # noqa
+        import traceback
+        out["harness_error"] = repr(e) + "\n" + traceback.format_exc()[-1500:]
+    finally:
+        try:
+            os.write(wfd, (json.dumps(out) + "\n").encode())
+        finally:
+            os._exit(0)
+
+
+def c11_race(job, drv):
+    """A reader racing a truncating writer, at every point of the reader's load, the three requests being served
+    by a process of their own (a forked copy of this driver): what the client of a forking server sees when the
+    process serving it is killed by a signal -- no reply -- is observable here as the death of that process."""
+    import json
+    import select
+    import signal as _signal
+    import implops_c10 as h
+    import implops_c14 as g
+    overrides = {k: dict(v) for k, v in (job.get("config") or {}).items()}
+    overrides.setdefault("handlers.dir.DirHandler", {})["cachetime"] = str(job.get("life", 180))
+    w = drv.World({"tree": job["tree"], "config": overrides})
+    t0 = time.time()
+    try:
+        sel = job.get("sel", "/d")
+        cachepath = os.path.join(w.root, sel.strip("/"), job.get("cachefile", ".cache.pygopherd.dir"))
+        protokeys = job["protokeys"]
+        cfg_ref = h.cacheless_config(drv, w.root, overrides)
+        refs = {}
+        with h.nocache():
+            for key in set(job["keys"]):
+                rq = protokeys[key]
+                r = drv.serve_once(cfg_ref, drv.s2b(rq["data"]), tls=rq["tls"])
+                refs[key] = h.mask(drv.s2b(r["out"]))
+                if not refs[key]:
+                    raise RuntimeError("empty reference listing: %r %r" % (r["exc"], r["log"]))
+        limit = float(job.get("child_limit", 90))
+
+        def run(plan):
+            d = os.path.dirname(cachepath)
+            for fn in os.listdir(d):
+                if job.get("cachefile", ".cache.pygopherd.dir") in fn:
+                    os.unlink(os.path.join(d, fn))
+            rfd, wfd = os.pipe()
+            pid = os.fork()
+            if pid == 0:
+                os.close(rfd)
+                _race_child(job, drv, w, h, g, refs, plan, cachepath, wfd)
+                os._exit(0)
+            os.close(wfd)
+            buf = b""
+            t_end = time.time() + limit
+            status = None
+            eof = False
+            while time.time() < t_end:
+                if not eof:
+                    rl, _, _ = select.select([rfd], [], [], 0.05)
+                    if rl:
+                        chunk = os.read(rfd, 65536)
+                        if chunk:
+                            buf += chunk
+                        else:
+                            eof = True
+                else:
+                    time.sleep(0.01)
+                wp, st_ = os.waitpid(pid, os.WNOHANG)
+                if wp:
+                    status = st_
+                    break
+            hung = status is None
+            if hung:
+                os.kill(pid, _signal.SIGKILL)
+                _, status = os.waitpid(pid, 0)
+            while not eof:
+                rl, _, _ = select.select([rfd], [], [], 0.2)
+                if not rl:
+                    break
+                chunk = os.read(rfd, 65536)
+                if not chunk:
+                    break
+                buf += chunk
+            os.close(rfd)
+            rep = {}
+            for line in buf.decode().splitlines():
+                try:
+                    rep.update(json.loads(line))          # progress lines, then the final report
+                except ValueError:
+                    rep["harness_error"] = "unreadable report"
+            rep["plan"] = plan
+            if hung:
+                rep["process"] = "still running after %.0f s (killed by the harness)" % limit
+                rep["class"] = "hang"
+            elif os.WIFSIGNALED(status):
+                sig = os.WTERMSIG(status)
+                try:
+                    sname = _signal.Signals(sig).name
+                except ValueError:
+                    sname = str(sig)
+                rep["process"] = "killed by " + sname
+                rep["class"] = "process-died"
+            elif os.WEXITSTATUS(status) != 0 or not buf:
+                rep["process"] = "exit status %d, no report" % os.WEXITSTATUS(status)
+                rep["class"] = "process-died"
+            else:
+                rep["process"] = "exited normally"
+                rep["class"] = "ok"
+            return rep
+
+        probe = run({"mode": "probe"})
+        res = {"probe": {k: probe.get(k) for k in ("writer_hold", "writer_step_label", "reader_gates", "reader_labels", "cache_size",
+                                                  "class", "process", "blocked", "harness_error", "stage", "w0",
+                                                  "reader_changed_the_directory")},
+               "runs": 0, "vacuous": 0, "bad": [], "examples": [], "by_mode": {}, "reader_points": []}
+        if probe.get("class") != "ok" or probe.get("stage") != "done":
+            # the schedule without any race (W's step after R has finished) already fails, or the harness is broken
+            if probe.get("harness_error"):
+                raise RuntimeError("race harness (probe): " + probe["harness_error"])
+            res["bad"].append(["probe", None, 0, "reader:" + (probe["class"] if probe.get("class") != "ok" else "hang")])
+            res["examples"].append(probe)
+            return res
+        for nm in ("reader", "writer", "later"):
+            if probe[nm]["verdict"] != "ok":
+                res["bad"].append(["probe", None, 0, nm + ":" + probe[nm]["verdict"]])
+                res["examples"].append(probe)
+        N = probe["reader_gates"]
+        hold = probe["writer_hold"]
+        res["reader_points"] = N + 1
+        if hold is None:
+            res["writer_never_touches_the_directory"] = True
+            return res
+        plans = job.get("only")
+        if plans is None:
+            S, rem = job.get("mod", [1, 0])
+            js = list(range(0, N + 1))
+            cap = int(job.get("max_trunc", 10 ** 6))
+            if len(js) > cap:
+                step = len(js) / float(cap)
+                js = sorted({js[int(i * step)] for i in range(cap)} | {0, N})
+            plans = [{"mode": "trunc", "j": j} for j in js]
+            plans += [{"mode": md, "j": j, "m": m} for md, j, m in job.get("extra", []) if j <= N]
+            plans = [p for i, p in enumerate(plans) if i % S == rem]
+        bad_seen = 0
+        for p in plans:
+            p = dict(p, writer_hold=hold)
+            rep = run(p)
+            res["runs"] += 1
+            res["by_mode"][p["mode"]] = res["by_mode"].get(p["mode"], 0) + 1
+            cls = []
+            if rep["class"] != "ok":
+                cls.append("reader:" + rep["class"])        # the process serving the requests is gone
+            elif rep.get("blocked") or rep.get("stage") != "done":
+                if rep.get("harness_error"):
+                    raise RuntimeError("race harness: " + rep["harness_error"])
+                cls.append("reader:hang")
+            else:
+                for nm in ("reader", "writer", "later"):
+                    if rep[nm]["verdict"] != "ok":
+                        cls.append(nm + ":" + rep[nm]["verdict"])
+                if p["mode"] != "full" and rep.get("size_after_writer_step") == rep.get("cache_size") and not cls:
+                    res["vacuous"] += 1
+            for c in cls:
+                res["bad"].append([p["mode"], p.get("j"), p.get("m", 0), c])
+            if cls:
+                bad_seen += 1
+                if len(res["examples"]) < 3:
+                    res["examples"].append(rep)
+                if bad_seen >= int(job.get("stop_after_bad", 4)):
+                    break
+        res["secs"] = round(time.time() - t0, 2)
+        return res
+    finally:
+        w.close()
+
+
 def register(OPS, drv):
+    OPS["c11_race"] = lambda job: c11_race(job, drv)
     OPS["c11_zip_sched"] = lambda job: c11_zip_sched(job, drv)
     OPS["c11_dir"] = lambda job: c11_dir(job, drv)
     OPS["c11_zip"] = lambda job: c11_zip(job, drv)
